@@ -211,6 +211,14 @@ def inst_minimal(rng, algo="dfa_quotient"):
         else:
             D = _mkdfa(["s%d" % i for i in range(k)], "a", {("s%d" % i, "a"): "s%d" % ((i + 1) % k) for i in range(k)},
                            "s0", ["s%d" % (k - 1)])
+    if not deep and rng.random() < 0.35:
+        # a declared state nothing leads to (the checker counts the classes of ALL declared states)
+        qs = sorted(D.Q)
+        for a in sorted(D.Sigma):
+            D.delta["zz", a] = rng.choice(qs + ["zz"])
+        D.Q.add("zz")
+        if rng.random() < 0.5:
+            D.F.add("zz")
     own = getattr(da, algo)(D)
     t = da.print_dfa(D)
 
